@@ -147,6 +147,8 @@ static void note_obtained(void *p) {
         }
 }
 
+static int g_dump_in_progress;
+static size_t g_dump_bytes;
 /* ---- counting null logger: the dump does all its work, the lines go nowhere ---- */
 static int nl_log(struct aws_logger *l, enum aws_log_level lvl, aws_log_subject_t subj, const char *fmt, ...) {
     (void)l;
@@ -159,6 +161,14 @@ static int nl_log(struct aws_logger *l, enum aws_log_level lvl, aws_log_subject_
     va_end(ap);
     V_COUNT("dump_log_lines", 1);
     if (strncmp(buf, "ALLOC ", 6) == 0) V_COUNT("dump_alloc_lines", 1);
+    /* a logger that stamps its lines with the tracer's byte total: aws_mem_tracer_bytes() is a plain atomic load, the one
+     * query that can be made while the dump holds the tracer's mutex; it has to return, with the total the dump started from
+     * (added after a seeded change that made the query take that mutex: the dump then never returns) */
+    if (g_dump_in_progress) {
+        size_t b = aws_mem_tracer_bytes(tr);
+        V_COUNT("byte_total_queries_from_the_dump_logger", 1);
+        if (b != g_dump_bytes) esx_fail("dump-changed-accounting", "aws_mem_tracer_bytes() called by the logger during the dump: %zu, the dump started with %zu", b, g_dump_bytes);
+    }
     return AWS_OP_SUCCESS;
 }
 static enum aws_log_level nl_level(struct aws_logger *l, aws_log_subject_t s) {
@@ -338,7 +348,10 @@ static void m_apply(int op) {
     }
     if (op == OP_DUMP) {
         size_t b0 = aws_mem_tracer_bytes(tr), c0 = aws_mem_tracer_count(tr);
+        g_dump_bytes = b0;
+        g_dump_in_progress = 1;
         aws_mem_tracer_dump(tr);
+        g_dump_in_progress = 0;
         size_t b1 = aws_mem_tracer_bytes(tr), c1 = aws_mem_tracer_count(tr);
         ESX_CHECK(b0 == b1 && c0 == c1, "dump-changed-accounting", "dump: bytes %zu -> %zu, count %zu -> %zu", b0, b1, c0, c1);
         if (nlive()) V_COUNT("dumps_with_live_blocks", 1);
